@@ -129,6 +129,21 @@ def bus_renderings(width):
                 yield perm, keep
 
 
+def dup_instances(ad):
+    """(design as written, design as it must be read): every cell that has instances gains one whose *name* repeats
+    its first instance's while its identifier is its own; the reader documents that such an instance is known by
+    its identifier."""
+    import copy
+    written, read = copy.deepcopy(ad), copy.deepcopy(ad)
+    for a in (written, read):
+        for lib in a["libs"]:
+            for d in lib["defs"]:
+                if d.get("insts"):
+                    first = d["insts"][0]
+                    d["insts"] = d["insts"] + [{"name": first["name"] if a is written else "zz_second", "id": "zz_second", "ref": first["ref"]}]
+    return written, read
+
+
 def edif_option_product(tier):
     out = []
     for refcase in ("decl", "upper", "lower"):
@@ -138,4 +153,7 @@ def edif_option_product(tier):
                     for dc in ("decl", "upper", "lower"):
                         out.append({"refcase": refcase, "always_rename": always, "libref_same": lr, "comments": comments, "design_case": dc})
                         out.append({"refcase": refcase, "always_rename": always, "libref_same": lr, "comments": comments, "design_case": dc, "rich": True})
+                        if not comments and dc == "decl":
+                            out.append({"refcase": refcase, "always_rename": always, "libref_same": lr, "comments": comments, "design_case": dc, "split_nets": True})
+                            out.append({"refcase": refcase, "always_rename": always, "libref_same": lr, "comments": comments, "design_case": dc, "dup_instances": True})
     return out
